@@ -1068,7 +1068,9 @@ func c05RootBoundByMergedMax(c *eng.Ctx) {
 			}
 		}
 	}
-	if !c.Floor(f, "tests of the created entry's TTL against zero", nZero, 2) || !c.Floor(f, "test of the merged explicit maximum against zero", nMerged, 1) {
+	// (no test of the merged maximum at all leaves every such path open: reported by the reachability below)
+	_ = nMerged
+	if !c.Floor(f, "tests of the created entry's TTL against zero", nZero, 2) {
 		return
 	}
 	var bounded []ssa.Instruction
